@@ -212,7 +212,7 @@ class Evaluator(object):
     """
 
     def __init__(self, program, fi, bind=None, facts=None, oracle=None, inline=None, mode='fork',
-                 max_paths=4000, inline_depth=3, fork_asserts=False, self_term=None, track_assign=False):
+                 max_paths=4000, inline_depth=3, fork_asserts=False, self_term=None, track_assign=False, values_as_items=False):
         self.P = program
         self.fi = fi
         self.bind = bind or {}
@@ -224,6 +224,7 @@ class Evaluator(object):
         self.inline_depth = inline_depth
         self.fork_asserts = fork_asserts
         self.track_assign = track_assign
+        self.values_as_items = values_as_items       # `for v in d.values()` binds v to d[key_of(...)]: rules that read `d[k]` see the same shape
         self.paths = []
         self._loop_ids = {}
         self._try_ids = {}
@@ -950,6 +951,9 @@ class Evaluator(object):
             return out
         if name == 'reversed' and T.dotted(it[1]) == 'reversed' and len(it[2]) == 1:
             return self.assign_target(tgt, ('elem', it[2][0], lid), st, node)
+        if name == 'values' and it[1][0] == 'attr' and not it[2] and not it[3] and isinstance(tgt, ast.Name) and self.values_as_items:
+            # `for v in d.values()`: v is d[<its key>] (the same shape as `for k in d: v = d[k]` / `for k, v in d.items()`)
+            return self.assign_target(tgt, ('sub', it[1][1], ('call', ('name', 'key_of'), (('elem', it, lid),), ())), st, node)
         return self.assign_target(tgt, ('elem', it, lid), st, node)
 
     @staticmethod
